@@ -385,6 +385,356 @@ fn c14_cell_step() {
     cell_step();
 }
 
+// ------------------------------------------------------------------------------------------------
+// S: one step of the TABLE from an arbitrary valid table state that HAS live path cells, built
+// directly through the private fields (no history: building the one-path state through
+// new/apply_dcid/apply_initial_dcid alone costs 440 k SSA steps). Shapes are concrete per
+// instance: R cells in ready_cells (indexed OFF .. OFF+R, i.e. each was handed the id of that
+// sequence number), U further ids stored but not yet handed out, P cells in pending_cells.
+// OFF = 2 ids have already slid out of the table (so cells can still hold an id below OFF).
+//
+// Valid table state (maintained by every operation, re-checked by `table_inv`):
+//   V1 ready_cells.offset == cid_deque.offset, cursor == ready_cells.largest() <= cid_deque.largest()
+//   V2 every stored entry of sequence s in [offset, cursor) is Some (it was handed out)
+//   V3 the ready cell of index s is abandoned (holds nothing) or its newest id is s
+//   V4 a pending cell is abandoned, or holds nothing (not in use), or holds one id below the offset
+
+const OFF: u64 = 2;
+
+fn reset_sink() {
+    unsafe {
+        RET_MASK = 0;
+        RET_DUP = false;
+        RET_COUNT = 0;
+    }
+}
+
+fn mk_cell(is_retired: bool, is_using: bool, held: Option<u64>) -> Cell {
+    let mut q = VecDeque::with_capacity(2);
+    if let Some(s) = held {
+        q.push_back((s, cid_of(s)));
+    }
+    ArcCidCell(Arc::new(Mutex::new(CidCell { retired_cids: Sink, allocated_cids: q, waker: None, is_retired, is_using })))
+}
+
+#[derive(Clone, Copy)]
+struct CellPre {
+    retired: bool,
+    using: bool,
+    held: Option<u64>,
+}
+
+/// ready cell of index s: abandoned | idle holding s | borrowed holding s
+fn any_ready_cell(s: u64) -> (Cell, CellPre) {
+    let retired: bool = kani::any();
+    let using: bool = kani::any();
+    kani::assume(!(retired && using));
+    let held = if retired { None } else { Some(s) };
+    (mk_cell(retired, using, held), CellPre { retired, using, held })
+}
+
+/// pending cell number j (< OFF): abandoned | waiting without id | idle/borrowed holding the
+/// peer-retired id j
+fn any_pending_cell(j: u64) -> (Cell, CellPre) {
+    let retired: bool = kani::any();
+    let using: bool = kani::any();
+    let has: bool = kani::any();
+    kani::assume(if retired { !using && !has } else { !using || has });
+    let held = if has { Some(j) } else { None };
+    (mk_cell(retired, using, held), CellPre { retired, using, held })
+}
+
+fn same_cell(a: &Cell, b: &Cell) -> bool {
+    Arc::ptr_eq(&a.0, &b.0)
+}
+
+fn unchanged(c: &Cell, p: &CellPre) -> bool {
+    let (r, u, n, newest, _) = cell_view(c);
+    r == p.retired && u == p.using && match p.held { Some(s) => n == 1 && newest == s, None => n == 0 }
+}
+
+/// Table with R ready cells, U unassigned entries (symbolic Some/None pattern, `last_some`: the
+/// newest entry is Some -- it is the one a frame just stored), P pending cells.
+struct Built<const R: usize, const U: usize, const P: usize> {
+    t: Table,
+    ready: [(Cell, CellPre); R],
+    pend: [(Cell, CellPre); P],
+    avail: [bool; U],
+}
+
+fn build<const R: usize, const U: usize, const P: usize>(limit: u64, last_some: bool) -> Built<R, U, P> {
+    reset_sink();
+    let mut t: Table = RemoteCids::new(limit, Sink);
+    t.cid_deque.reset_offset(OFF);
+    t.ready_cells.reset_offset(OFF);
+    let mut k = 0u64;
+    let ready: [(Cell, CellPre); R] = core::array::from_fn(|_| {
+        let s = OFF + k;
+        k += 1;
+        any_ready_cell(s)
+    });
+    let mut i = 0;
+    while i < R {
+        let s = OFF + i as u64;
+        t.cid_deque.push_back(Some((s, cid_of(s), ResetToken::default()))).unwrap();
+        t.ready_cells.push_back(ready[i].0.clone()).unwrap();
+        i += 1;
+    }
+    let avail: [bool; U] = kani::any();
+    if last_some && U > 0 {
+        kani::assume(avail[U - 1]);
+    }
+    let mut i = 0;
+    while i < U {
+        let s = OFF + (R + i) as u64;
+        let e = if avail[i] { Some((s, cid_of(s), ResetToken::default())) } else { None };
+        t.cid_deque.push_back(e).unwrap();
+        i += 1;
+    }
+    let mut j = 0u64;
+    let pend: [(Cell, CellPre); P] = core::array::from_fn(|_| {
+        let c = any_pending_cell(j);
+        j += 1;
+        c
+    });
+    let mut i = 0;
+    while i < P {
+        t.pending_cells.push_back(pend[i].0.clone());
+        i += 1;
+    }
+    t.cursor = OFF + R as u64;
+    Built { t, ready, pend, avail }
+}
+
+/// V1 (cursors) on a post-state.
+fn table_inv(t: &Table) {
+    assert!(t.ready_cells.offset() == t.cid_deque.offset(), "V1: both deques slide together");
+    assert!(t.cursor == t.ready_cells.largest(), "V1: cursor == next ready index");
+    assert!(t.cursor <= t.cid_deque.largest(), "V1: cursor never beyond the stored ids");
+    assert!(!unsafe { RET_DUP }, "never two RETIRE_CONNECTION_ID for one sequence number");
+}
+
+// S1: retire_prior_to(tomb) -- the retire-prior-to field of a NEW_CONNECTION_ID frame whose own
+// sequence number (>= tomb, enforced by the frame parser) has just been stored: tomb < largest.
+fn retire_prior_step<const R: usize, const U: usize, const P: usize>() {
+    let b = build::<R, U, P>(8, true);
+    let mut t = b.t;
+    let n = (R + U) as u64;
+    let cursor = OFF + R as u64;
+    let tomb: u64 = kani::any();
+    kani::assume(tomb < OFF + n);
+    let x: u64 = kani::any(); // probe sequence number
+    kani::assume(x < OFF + n);
+    let x_before: Option<u64> = match t.cid_deque.get(x) {
+        Some(Some((q, _, _))) => Some(*q),
+        _ => None,
+    };
+
+    t.retire_prior_to(tomb);
+
+    if tomb <= OFF {
+        assert!(t.cid_deque.offset() == OFF && t.cid_deque.len() == R + U && t.ready_cells.len() == R && t.pending_cells.len() == P
+            && t.cursor == cursor && ret_count() == 0, "retire_prior_to at or below the current offset changes nothing");
+    } else {
+        assert!(t.cid_deque.offset() == tomb && t.cid_deque.largest() == OFF + n, "the table slides to retire_prior_to, the newer ids stay");
+        assert!(t.cursor == if tomb > cursor { tomb } else { cursor }, "the cursor skips ids retired before they were handed out, never moves back");
+        // ids that were never handed out are retired towards the peer right away, each once; ids
+        // that a path still holds are NOT (the path retires them when it switches)
+        let jumped = if tomb > cursor { tomb - cursor } else { 0 };
+        assert!(ret_count() == jumped as u32, "one RETIRE_CONNECTION_ID per abandoned, unassigned sequence number");
+        assert!(retired(x) == (x >= cursor && x < tomb), "exactly the unassigned numbers below retire_prior_to");
+        // every path whose id is being retired is queued for a replacement, in order; abandoned ones are dropped
+        let popped = if tomb - OFF < R as u64 { (tomb - OFF) as usize } else { R };
+        assert!(t.ready_cells.len() == R - popped);
+        let mut expect_pending = P;
+        let mut i = 0;
+        while i < R {
+            if i < popped {
+                if !b.ready[i].1.retired {
+                    assert!(same_cell(&t.pending_cells[expect_pending], &b.ready[i].0), "queued for a replacement, oldest first");
+                    expect_pending += 1;
+                }
+            } else {
+                let s = OFF + i as u64;
+                assert!(same_cell(t.ready_cells.get(s).unwrap(), &b.ready[i].0), "paths on newer ids stay where they are");
+            }
+            i += 1;
+        }
+        assert!(t.pending_cells.len() == expect_pending);
+    }
+    // stored ids at/above the new offset are untouched, below it they are gone
+    let x_after: Option<u64> = match t.cid_deque.get(x) {
+        Some(Some((q, _, _))) => Some(*q),
+        _ => None,
+    };
+    assert!(x_after == if x >= t.cid_deque.offset() { x_before } else { None });
+    // no cell is touched by this step
+    let mut i = 0;
+    while i < R {
+        assert!(unchanged(&b.ready[i].0, &b.ready[i].1));
+        i += 1;
+    }
+    let mut i = 0;
+    while i < P {
+        assert!(unchanged(&b.pend[i].0, &b.pend[i].1) && same_cell(&t.pending_cells[i], &b.pend[i].0));
+        i += 1;
+    }
+    table_inv(&t);
+    kani::cover!(tomb > cursor && R > 0, "jumping retire: assigned and unassigned ids retired by one frame");
+    kani::cover!(tomb > OFF && tomb < cursor, "only some of the assigned ids retired");
+    core::mem::forget(t);
+    core::mem::forget(b.ready);
+    core::mem::forget(b.pend);
+}
+
+macro_rules! s_harness {
+    ($name:ident, $body:expr) => {
+        #[kani::proof]
+        #[kani::unwind(6)]
+        #[kani::stub(alloc::fmt::format, stub_fmt)]
+        #[kani::stub(std::sync::Mutex::lock, stub_lock)]
+        #[kani::stub(crate::token::ResetToken::random_gen, stub_token)]
+        fn $name() {
+            $body;
+        }
+    };
+}
+
+s_harness!(c14_remote_retire_prior_r2u2p0, retire_prior_step::<2, 2, 0>());
+s_harness!(c14_remote_retire_prior_r1u1p1, retire_prior_step::<1, 1, 1>());
+
+// S2: arrange_idle_cid / apply_dcid -- hand the next unassigned ids to the waiting paths.
+fn arrange_step<const R: usize, const U: usize, const P: usize>(apply: bool) {
+    let b = build::<R, U, P>(8, false);
+    let mut t = b.t;
+    let cursor = OFF + R as u64;
+
+    let fresh_cell = if apply { Some(t.apply_dcid()) } else { t.arrange_idle_cid(); None };
+
+    // ---- oracle: walk the waiting paths front to back ------------------------------------------
+    let mut cur = 0usize; // ids handed out
+    let mut blocked = false;
+    let mut remain = 0usize; // cells still waiting
+    let mut exp_ret = 0u32;
+    let mut j = 0;
+    while j < P {
+        let (c, p) = (&b.pend[j].0, &b.pend[j].1);
+        if blocked {
+            assert!(unchanged(c, p) && same_cell(&t.pending_cells[remain], c), "behind a path that could not be served: untouched, order kept");
+            remain += 1;
+        } else if p.retired {
+            assert!(unchanged(c, p), "an abandoned path is dropped from the queue and gets nothing");
+        } else if cur < U && b.avail[cur] {
+            let s = cursor + cur as u64;
+            let (r, u, n, newest, oldest) = cell_view(c);
+            assert!(!r && u == p.using && newest == s, "the waiting path gets the next unassigned id");
+            match p.held {
+                Some(o) if p.using => assert!(n == 2 && oldest == o && !retired(o), "an id inside a packet being assembled is not retired yet"),
+                Some(o) => {
+                    assert!(n == 1 && retired(o), "switching: the old id is retired towards the peer");
+                    exp_ret += 1;
+                }
+                None => assert!(n == 1),
+            }
+            assert!(same_cell(t.ready_cells.get(s).unwrap(), c), "and is filed under that sequence number");
+            cur += 1;
+        } else {
+            blocked = true;
+            assert!(unchanged(c, p) && same_cell(&t.pending_cells[remain], c), "no unassigned id: keeps waiting");
+            remain += 1;
+        }
+        j += 1;
+    }
+    if let Some(c) = &fresh_cell {
+        // the path that just applied queues behind everyone else
+        if !blocked && cur < U && b.avail[cur] {
+            let s = cursor + cur as u64;
+            assert!(cell_view(c) == (false, false, 1, s, s) && same_cell(t.ready_cells.get(s).unwrap(), c));
+            cur += 1;
+        } else {
+            assert!(cell_view(c) == (false, false, 0, u64::MAX, u64::MAX) && same_cell(&t.pending_cells[remain], c));
+            remain += 1;
+            blocked = true;
+        }
+    }
+    assert!(t.pending_cells.len() == remain);
+    assert!(t.cursor == cursor + cur as u64 && t.ready_cells.len() == R + cur, "each id is handed out once: the cursor moves past it");
+    assert!(ret_count() == exp_ret, "one RETIRE_CONNECTION_ID per id a path switched away from, nothing else");
+    let x: u64 = kani::any();
+    kani::assume(x >= OFF && x < OFF + (R + U) as u64);
+    assert!(!retired(x), "no id at or above the offset is retired by handing out ids");
+    assert!(t.cid_deque.offset() == OFF && t.cid_deque.len() == R + U);
+    let mut i = 0;
+    while i < R {
+        assert!(unchanged(&b.ready[i].0, &b.ready[i].1) && same_cell(t.ready_cells.get(OFF + i as u64).unwrap(), &b.ready[i].0), "paths that have an id are not touched");
+        i += 1;
+    }
+    table_inv(&t);
+    kani::cover!(cur == 2 && exp_ret >= 1, "two paths served, at least one switched");
+    kani::cover!(blocked && cur == 1, "first path served, second keeps waiting");
+    kani::cover!(apply || (P >= 2 && b.pend[0].1.retired && cur >= 1), "abandoned path skipped");
+    core::mem::forget(t);
+    core::mem::forget(b.ready);
+    core::mem::forget(b.pend);
+    core::mem::forget(fresh_cell);
+}
+
+s_harness!(c14_remote_arrange_r1u2p2, arrange_step::<1, 2, 2>(false));
+s_harness!(c14_remote_apply_dcid_r1u2p1, arrange_step::<1, 2, 1>(true));
+
+// S3: a whole NEW_CONNECTION_ID frame into the state after the handshake (one path on sequence 0)
+// and one more id stored: symbolic (seq, retire_prior_to) -- reordered, duplicated, retiring.
+fn frame_live_step() {
+    reset_sink();
+    let limit: u64 = kani::any();
+    kani::assume(limit >= 2 && limit <= 3);
+    let mut t: Table = RemoteCids::new(limit, Sink);
+    let using: bool = kani::any();
+    let c0 = mk_cell(false, using, Some(0));
+    t.cid_deque.push_back(Some((0, cid_of(0), ResetToken::default()))).unwrap();
+    t.ready_cells.push_back(c0.clone()).unwrap();
+    t.cursor = 1;
+    let seq: u64 = kani::any();
+    let rpt: u64 = kani::any();
+    kani::assume(rpt <= seq && seq <= 3);
+    let f = NewConnectionIdFrame::new(cid_of(seq), VarInt::from_u64(seq).unwrap(), VarInt::from_u64(rpt).unwrap());
+    let r = t.recv_new_cid_frame(f);
+    if seq - rpt > limit {
+        assert!(matches!(r, Err(Error::Quic(ref e)) if e.kind() == ErrorKind::ConnectionIdLimit), "CONNECTION_ID_LIMIT_ERROR");
+        assert!(ret_count() == 0 && t.cursor == 1 && cell_view(&c0) == (false, using, 1, 0, 0));
+    } else {
+        assert!(matches!(r, Ok(Some(_))));
+        let (ret, u, n, newest, oldest) = cell_view(&c0);
+        assert!(!ret && u == using);
+        if rpt == 0 {
+            assert!(n == 1 && newest == 0 && ret_count() == 0 && t.cursor == 1, "nothing to retire: the path stays on its id");
+        } else if rpt == seq {
+            // ids 0 .. seq-1 are retired by the peer, seq is the only usable one: the path switches to it
+            assert!(newest == seq && t.cursor == seq + 1, "honours retire-prior-to by switching to the new id");
+            if using {
+                assert!(n == 2 && oldest == 0 && !retired(0), "the id inside the packet being assembled is retired later (renew)");
+                assert!(ret_count() == (seq - 1) as u32);
+            } else {
+                assert!(n == 1 && retired(0) && ret_count() == seq as u32, "one RETIRE_CONNECTION_ID per abandoned sequence number");
+            }
+        } else {
+            // 0 < rpt < seq: the id at rpt was never announced (only seq was): no replacement yet
+            assert!(n == 1 && newest == 0 && !retired(0), "no usable replacement yet: keeps the old id, retires it on switching");
+            assert!(t.cursor == rpt && ret_count() == (rpt - 1) as u32 && t.pending_cells.len() == 1);
+        }
+        let x: u64 = kani::any();
+        kani::assume(x >= 1 && x <= 3);
+        assert!(retired(x) == (x < rpt), "unassigned numbers below retire_prior_to are retired at once");
+    }
+    table_inv(&t);
+    kani::cover!(rpt == seq && seq == 3 && !using, "retire everything older in one frame");
+    kani::cover!(seq - rpt > limit, "over the limit");
+    core::mem::forget(t);
+    core::mem::forget(c0);
+}
+
+s_harness!(c14_remote_frame_live_cell, frame_live_step());
+
 // pending: RFC 9000 §5.1.1 / §19.15: "After processing a NEW_CONNECTION_ID frame and adding and
 // retiring active connection IDs, if the number of active connection IDs exceeds the value
 // advertised in its active_connection_id_limit transport parameter, an endpoint MUST close the
